@@ -117,6 +117,10 @@ def stage(unit, workdir, repo, verif):
                 raise StagingError("file under test is gone: " + op[1])
             inj = open(os.path.join(verif, op[2])).read()
             _write_keep_mtime(p, open(p).read() + "\n" + inj, p)
+        elif kind == "append_crate":
+            p = os.path.join(crate_dir, op[1])
+            inj = open(os.path.join(verif, op[2])).read()
+            _write_keep_mtime(p, open(p).read() + "\n" + inj, p)
         elif kind == "write":
             _write_keep_mtime(os.path.join(crate_dir, op[1]), op[2], os.path.join(verif, "check"))
         elif kind == "toml_append":
